@@ -12,7 +12,7 @@ if args[:1] == ['-j']:
 exp = json.load(open('/verif/seeded/expect.json'))
 names = args or sorted(k for k in exp if not k.startswith('_'))
 def run(name, chk):
-    p = subprocess.run(['tools/seeded_run.sh', name, chk, 'quick'], cwd='/verif', capture_output=True, text=True)
+    p = subprocess.run(['tools/seeded_run.sh', name, chk, 'quick'], cwd='/verif', capture_output=True, text=True, errors='replace')
     out = p.stdout + p.stderr
     sigs = sorted({l.split(' sig=')[1].split(' what=')[0] for l in out.splitlines() if l.startswith('VIOLATION') and ' sig=' in l})
     verdict = 'caught' if sigs else ('INCONCLUSIVE' if 'INCONCLUSIVE' in out else ('HELD' if 'HELD property' in out else 'ERROR'))
